@@ -84,11 +84,17 @@ static std::string g_pause_dir;
 static std::atomic<int> g_kind_count[32];
 static std::atomic<uint64_t> g_hook_rng{88172645463325252ULL};
 static std::atomic<long> g_sync_events{0};
+static int g_crash_sync = 0;  // >0: the byte budget applies to the writes of the K-th synchronisation only
+static long g_crash_budget_cfg = -1;
 
 extern "C" void votca_verif_event(int kind, const void *, long) {
   if (kind < VV_SYNC_LOCKED || kind >= 32) return;
   ++g_sync_events;
   int occ = ++g_kind_count[kind];
+  if (g_crash_sync > 0 && kind == VV_SYNC_LOCKED) {
+    if (occ == g_crash_sync) { g_written.store(0); g_crash_budget.store(g_crash_budget_cfg); }
+    else g_crash_budget.store(-1);
+  }
   if (kind == g_pause_kind && occ == g_pause_occ && !g_pause_dir.empty()) {
     std::string p = g_pause_dir + "/paused", g = g_pause_dir + "/go";
     int fd = open(p.c_str(), O_CREAT | O_WRONLY, 0644);
@@ -164,7 +170,9 @@ int main(int argc, char **argv) {
   std::string count_target = A.str("count-target");
   if (ct == "job" || count_target == "job") g_crash_path = file;
   if (ct == "backup" || count_target == "backup") g_crash_path = file + "~";
-  if (!ct.empty()) g_crash_budget.store(A.num("crash-at", -1));
+  g_crash_sync = (int)A.num("crash-sync", 0);
+  g_crash_budget_cfg = A.num("crash-at", -1);
+  if (!ct.empty() && g_crash_sync == 0) g_crash_budget.store(g_crash_budget_cfg);
 
   namespace po = boost::program_options;
   po::options_description d;
